@@ -212,6 +212,12 @@ LAYOUTS = {
     "ns-nested-both": ({"s1/nsp/nested/a.py": "1", "s2/nsp/nested/b.py": "2"}, "nsp"),
     "ns-deep-2nd": ({"s1/nsp/one.py": "2", "s2/nsp/n1/n2/deep.py": "1"}, "nsp"),
     "ns-regular-sub": ({"s1/nsp/one.py": "2", "s2/nsp/reg/__init__.py": "I", "s2/nsp/reg/m.py": "1"}, "nsp"),
+    # portions whose directories do not come in alphabetical order on the search path (the order of the portions IS the order of the search path)
+    "ns-reversed-paths": ({"s1/nsp/one.py": "2", "s2/nsp/two.py": "1"}, "nsp", ["s2", "s1"]),
+    "ns-three-portions": ({"s1/nsp/one.py": "2", "s2/nsp/two.py": "1", "s0/nsp/zero.py": "2"}, "nsp", ["s1", "s2", "s0"]),
+    # wildcard imports that do not run: type-guarded in the package's __init__, or written in the stub of the __init__ only
+    "pkg-guarded-wildcard": ({"s1/pkg/__init__.py": "G", "s1/pkg/sub.py": "1"}, "pkg"),
+    "stub-wildcard": ({"s1/pkg/__init__.py": "i", "s1/pkg/__init__.pyi": "W", "s1/pkg/sub.py": "1"}, "pkg"),
     "pkg-nested": ({"s1/pkg/__init__.py": "I", "s1/pkg/sub/__init__.py": "i", "s1/pkg/sub/deep.py": "1", "s1/pkg/two.py": "2"}, "pkg"),
     "pkg-2nd-path": ({"s1/other.py": "2", "s2/pkg/__init__.py": "i", "s2/pkg/m.py": "1"}, "pkg"),
     "stub-beside": ({"s1/mod.py": "1", "s1/mod.pyi": "1"}, "mod"),
@@ -244,8 +250,10 @@ def files_for(container, f1, f2):
         return {"s1/nsp/one.py": source_for(f1, None), "s2/nsp/two.py": source_for(f2, None) if f2 else "twov = 1\n"}, "nsp", ["s1", "s2"]
     if container in LAYOUTS:
         src1, src2 = source_for(f1, None), (source_for(f2, None) if f2 else "twov = 1\n")
-        files = {k: {"1": src1, "2": src2, "i": "", "I": '"""Init doc."""\nfrom . import *\n'}[v] for k, v in LAYOUTS[container][0].items()}
-        return files, LAYOUTS[container][1], ["s1", "s2"]
+        files = {k: {"1": src1, "2": src2, "i": "", "I": '"""Init doc."""\nfrom . import *\n',
+                     "G": "from typing import TYPE_CHECKING\nif TYPE_CHECKING:\n    from .sub import *\n    class GuardedClass:\n        def gm(self): ...\n    def guarded_func(): ...\n    guarded_attr: int = 0\n",
+                     "W": "from .sub import *\n"}[v] for k, v in LAYOUTS[container][0].items()}
+        return files, LAYOUTS[container][1], (LAYOUTS[container][2] if len(LAYOUTS[container]) > 2 else ["s1", "s2"])
     raise AssertionError(container)
 
 
